@@ -89,19 +89,16 @@ def _vectors(tier, seed):
             keep = {(0, 0, 0, 0), (0, 0, 2, 0), (1, 0, 0, 3), (0, 0, 0, 1), (3, 0, 0, 0), (0, 1, 0, 1), (2, 0, 3, 0), (0, 0, 1, 1)}
             keep |= {allv[i] for i in rng.choice(len(allv), size=40, replace=False)}
             allv = sorted(keep)
-        if not q and k == 5:
-            rng = np.random.default_rng(seed + 5)
-            keep = {(0, 0, 2, 0, 1), (2, 0, 3, 0, 1), (0, 0, 0, 0, 1), (1, 0, 0, 0, 0), (1, 0, 3, 2, 1), (0, 0, 2, 0, 3)}
-            keep |= {allv[i] for i in rng.choice(len(allv), size=300, replace=False)}
-            allv = sorted(keep)
         vecs += [list(v) for v in allv]
+    if not q:  # six members, lengths 0..2, exhaustively
+        vecs += [list(v) for v in itertools.product(range(3), repeat=6)]
     return vecs
 
 
 def jobs(tier, seed):
     vecs = _vectors(tier, seed)
     out = []
-    chunk = 12
+    chunk = 12 if tier == "quick" else 48
     for i in range(0, len(vecs), chunk):
         out.append(dict(h="getitem", vectors=vecs[i:i + chunk], label=f"getitem:vectors[{i}:{i + chunk}]"))
     # large members: running totals beyond the int8 / int16 / uint16 ranges (the index stays symbolic over the whole collection)
@@ -205,12 +202,12 @@ META = dict(
                "MazeDatasetCollectionConfig.n_mazes"],
     bounds=dict(quick="global index symbolic (0 <= i < len); all member-length vectors over 0..3 for 1..3 members, 48 vectors for 4 members; "
                       "member names distinct and all-equal, member configurations with stale counts; member grid sizes 2..4; 9 vectors with large members (running totals past 127, 255, 32767, 65535)",
-                thorough="all vectors over 0..4 for 1..4 members plus 306 vectors for 5 members; 12 vectors with large members"),
+                thorough="all vectors over 0..4 for 1..5 members (3905 vectors) and all vectors over 0..2 for 6 members (729); 12 vectors with large members"),
     degenerate=dict(getitem="the length vector is enumerated (len() must return a Python int); the index is symbolic within each vector, "
                             "a path covers all indices that fall into one member"),
     stubs=["np -> symbolic shim in maze_dataset.dataset.collected_dataset (np.searchsorted on the cumulative lengths)",
            "member datasets are stand-ins (MazeDataset subclass) holding the global ids of the independent concatenation"],
-    outside=["indices outside 0 <= i < len (negative / too large)", "more than 5 members or lengths above 4"],
+    outside=["indices outside 0 <= i < len (negative / too large)", "more than 5 members with lengths above 2, more than 6 members, or lengths above 4 (except the listed large-member vectors)"],
     assumptions=["three other collections (lengths [1,0,3], [0,2,0,0,2], [4]) are built and read before every measured access (fixed pre-history)", "items are identified by their position in the independently built concatenation"],
 )
 
